@@ -68,7 +68,8 @@ def OwnName (enc : Bytes → Bytes) : Op → Acc → Bytes → Prop
   | .createMultipartUpload b k _ u, _, n => n = uploadInfoName u ∨ n = metadataName enc b k (some u)
   | .uploadPart _ _ uid part _ c, acc, n => OwnUploadName uid part c acc n
   | .uploadPartCopy _ _ _ _ _ uid part c, acc, n => OwnUploadName uid part c acc n
-  | .listParts _ _ uid, acc, n => acc = .read ∧ uploadPartPrefix uid <+: n
+  | .listParts _ _ uid, acc, n =>
+    ∃ u, parseUuid uid = some u ∧ acc = .read ∧ (n = uploadInfoName u ∨ uploadPartPrefix u <+: n)
   | .completeMultipartUpload b k uid parts c, _, n =>
     ∃ u, parseUuid uid = some u ∧
       (n = uploadInfoName u ∨ n = metadataName enc b k (some u) ∨ n = metadataName enc b k none ∨ n = tmpName c ∨
